@@ -979,6 +979,8 @@ def run(ctx):
     ctx.declined = ["equivalence with line-by-line processing for all texts and all chunk schedules (value-level string equality)"]
     px = pyfront.PyIndex(ctx.root)
     rule_driver(ctx, px)
+    from checks import _gen
+    _gen.rule_handed_on(ctx, px, "R-C15-DRIVER")
     rule_straddle(ctx, px)
     rule_pp_contract(ctx, px)
     rule_limit_installed(ctx, px)
